@@ -7,7 +7,7 @@ import re
 from layout_common import *
 from codec_common import SPELLINGS, canon
 
-GEN = ["EstructParams", "Cp037", "SchemaMakerParams", "NameCleanerParams"]
+GEN = ["EstructParams", "Cp037", "SchemaMakerParams", "NameCleanerParams", "HeaderRowParams"]
 ALSO = ["C09"]   # the WBNav family (Row.name / Row.values over workbook rows) is C09's model, theorems and run; ./check C10 runs that engine too
 RULE = ("random record descriptions (C01's generator with a numeric-rich pool: zoned, signed zoned, COMP-3, binary, X items; OCCURS, OCCURS DEPENDING ON, "
         "REDEFINES at every child position, FILLER) printed as copybooks; an EBCDIC record in which every elementary item holds a valid, position-coded "
